@@ -325,7 +325,8 @@ theorem T_C12_trait (v : Variant) (attr : Toks) (t : TraitItem) (out : Out)
       (traitTg t) (traitSup t) fns .rawTrait)] ++ delegation) (traitImplBlock { a0 with opts := v.apply a0.opts } t fns)
   simp only [P_C12, effectiveOpts, h1, Out.view, Out.inside, Out.after, himpl, Item.srcSigs, Item.attrs,
     Bool.and_eq_true]
-  generalize t.members.filterMap (fun mm => match mm with | .fn f => some f | _ => none) = fs at hf ⊢
+  simp only [TraitItem.fns] at hf ⊢
+  generalize t.members.filterMap TraitMember.fn? = fs at hf ⊢
   subst hf
   refine ⟨?_, ?_, ?_⟩
   · -- every generated trait
